@@ -5,12 +5,20 @@ HERE = os.path.dirname(os.path.dirname(os.path.abspath(__file__)))
 TECH = 'bounded symbolic execution of the translated real source on z3 proxies; SMT (z3) decides pc & ~property per path'
 CLAIMED = {
     # id: (level text, level note, design ref, technique)
-    'C02': ('Every feasible path of the real add_gaussian_line (translated from /repo at run time) is explored for '
-            'bins<=4 (quick) / <=8 (thorough) with all other inputs symbolic reals; z3 decides per path that each bin '
-            'receives the bin-average of the normalised profile, zero-width lines add nothing and the kept fraction '
-            'reaches 1-4e-12 when the window spans the line. Bounded, not a proof.',
-            'erf is uninterpreted + lemma schema (monotone, odd, bounds, erfc(5)<2e-12); doubles are exact reals; '
-            'raysect Spectrum replaced by a model; translator validated against the compiled module on every run.',
+    'C02': ('Every feasible path of the real add_gaussian_line and add_lorentzian_line (translated from /repo at run time) is '
+            'explored for bins<=4/3 (quick) / <=8/6 (thorough) with all other inputs symbolic reals; z3 decides per path that each bin '
+            'receives the bin-average of the normalised profile (Gaussian: erf differences; Lorentzian: radiance*INT(bin)/delta over '
+            'exactly the bins meeting the +-50 FWHM truncation), zero-width lines add nothing and the kept fraction reaches 1-4e-12 '
+            'when the window spans the line. Each of GaussianLine, MultipletLineShape, ZeemanTriplet, ParametrisedZeemanTriplet, '
+            'ZeemanMultiplet, StarkBroadenedLine and BeamEmissionMultiplet is executed on a symbolic plasma point (B vector any / exactly '
+            'zero, all three polarisations) with recording kernels: z3 (QF_NRA) decides that components sum to the radiance, carry the '
+            '(1/2)sin^2 / (1/4)sin^2+(1/2)cos^2 weights and multiplet / structure / MSE ratios, sit at the documented wavelengths and '
+            'widths, that pi + sigma = unpolarised component-wise and that a line without width adds nothing. ZeemanStructure.evaluate '
+            'renormalisation, doppler_shift, thermal_broadening and the StarkFunction scaling law are separate harnesses. Bounded, not a proof.',
+            'erf / pow / INT are uninterpreted (+ lemma schemas: monotone, odd, bounds, erfc(5)<2e-12), sqrt is a root variable; doubles are '
+            'exact reals; raysect Spectrum / vectors replaced by a model; Lorentzian quadrature accuracy, the Olivero FWHM and weight '
+            'polynomials (only w_g + w_l = 1 is used) and the hyp2f1 constant (compared concretely) are outside; translator validated '
+            'against the compiled module on every run.',
             'DESIGN.md §4 C02', TECH),
 }
 CLAIMED['C20'] = (
